@@ -104,6 +104,32 @@ def rangeS (pm : List Param) : Stmt → Frame → Bool
   | .tabsPushCol, _ => true
   | .forTabs _, _ => false        -- not analysed
   | .forTabsDown _, _ => false    -- not analysed
+  | .forS _ _ _ _, _ => false     -- not analysed (round 3: function-level loops, sgr, osc, modes)
+  | .forSgr _, _ => false
+  | .forParams _, _ => false
+  | .iteP _ _ _, _ => false
+  | .setCol _ _, _ => false
+  | .tabsAppendRange _ _ _, _ => false
+  | .cut _ _ _ _, _ => true
+  | .pmDefault0, _ => true
+  | .skipParams _, _ => true
+  | .attrOn _, _ => true
+  | .attrOff _, _ => true
+  | .attrClear, _ => true
+  | .setUl _, _ => true
+  | .logErr, _ => true
+  | .reply, _ => true
+  | .setMode _ _, _ => true
+  | .post, _ => true
+  | .setLink _, _ => true
+  | .setLinkParams _, _ => true
+  | .hostQuery, _ => true
+  | .b64Decode _, _ => true
+  | .clipPush, _ => true
+  | .loadOldCell r c, s => exR pm s [] r && exR pm s [] c
+  | .penFromCell, _ => true
+  | .printCell, _ => false        -- print() is not analysed
+  | .assignCellWrapped _, _ => true
   | st, s => rangeG pm s st []
 
 def rangeBody (b : Body) (pm : List Param) (args : List Int) (e : Emu) : Bool :=
